@@ -54,7 +54,21 @@ claim('C13',
       'raisers, stdlib calls outside that table do not raise for well-typed arguments. Assumption A1 (Dezyne '
       'identifiers are non-empty) is stated in the evidence. RecursionError from input depth is out of reach.')
 
+claim('C15',
+      'typestate analysis of decoded JSON values (unchecked until a dominating isinstance) + exception-escape '
+      'analysis from process()/parse_* + dominance rules on the out-event rejections and the identifier path, over '
+      'python ast',
+      'Static rule set: in json_ast.py no operation that can fail is applied to a JSON value before a dominating '
+      'type test (children of checked containers are unchecked again; the typed getters are verified to test before '
+      'they return); the exception classes that may leave process(), parse_element and every parse_* function are '
+      'DznJsonError or NamespaceIdsTypeError; identifier lists reach NamespaceIds only through the validating '
+      'constructor path after the empty-list refusal; both out-event rejections dominate the only construction of '
+      'Event with the right polarity; recursion is on sub-elements only. This decides "never an internal exception" '
+      'for every JSON value; it does not bound recursion depth.',
+      'Trusted: python ast, E1/E2, the closed table of operations that can raise on JSON values, orjson producing '
+      'only dict/list/str/int/float/bool/None with str keys. RecursionError on ~500 nested namespaces is out of reach.')
+
 _pending = 'check not built yet in this round (design in DESIGN.md section 3); will be claimed when its rules run clean'
-for _p in ['C01', 'C02', 'C03', 'C04', 'C05', 'C06', 'C07', 'C09', 'C10', 'C11', 'C14', 'C15',
+for _p in ['C01', 'C02', 'C03', 'C04', 'C05', 'C06', 'C07', 'C09', 'C10', 'C11', 'C14',
            'C17', 'C18', 'C19', 'C20']:
     na(_p, _pending)
